@@ -108,7 +108,7 @@ CONSTANTS
   Toks <- ToksDef
   Bytes <- BytesDef
   TokOps = {"deltok", "duptok", "swaptok"}
-  ByteOps = {"truncate", "insnul", "insbad", "insustr", "insubc"}
+  ByteOps = {"truncate", "insnul", "insbad", "insustr", "insubc", "bom"}
   NestDepths = {%(depths)s}
   MaxChain = %(chain)d
   Stride = %(stride)d
@@ -136,7 +136,7 @@ ALL_FREE = ["id", "kwmsg", "sp", "tab", "lf", "cr", "semi", "lb", "rb", "bc2", "
 FINAL = ["lcE", "ustrE", "ubc"]
 QUICK_FREE = ["id", "kwmsg", "sp", "tab", "lf", "cr", "semi", "lb", "rb", "bc3", "bcT", "bcN", "lc3", "str3", "strT",
               "ustr", "strBN", "bad", "nul", "stray"]
-QUICK_GAPS = ["lf", "tab", "bc3", "bcN", "ustr"]
+QUICK_GAPS = ["lf", "tab", "bcN", "ustr"]
 THOROUGH_GAPS = ["lf", "tab", "cr", "bc4", "bcT", "bcN", "lc3", "ustr", "strBN"]
 
 SRCPOS_CFG = """SPECIFICATION Spec
@@ -147,6 +147,8 @@ CONSTANTS
   FreeUnits = {%(free)s}
   FinalUnits = {%(final)s}
   GapUnits = {%(gaps)s}
+  Boms = {FALSE, TRUE}
+  BomMaxLen = %(bommax)d
 INVARIANTS %(invs)s
 CHECK_DEADLOCK FALSE
 """
@@ -222,20 +224,20 @@ def run_c13(pid, tier, replay):
     thorough = tier == "thorough"
     runs = []  # (name, cfg dict, simulate, depth)
     if thorough:
-        runs.append(("free", dict(maxlen=4, emin=0, shape="free", free=_q(ALL_FREE), final=_q(FINAL), gaps="", invs="OracleSane Export"), None, None))
-        runs.append(("skel", dict(maxlen=0, emin=0, shape="skel", free="", final="", gaps=_q(THOROUGH_GAPS), invs="Export"), None, None))
-        runs.append(("sim", dict(maxlen=12, emin=12, shape="free", free=_q(ALL_FREE), final=_q(FINAL), gaps="", invs="Export"), 1500, 13))
+        runs.append(("free", dict(maxlen=4, bommax=3, emin=0, shape="free", free=_q(ALL_FREE), final=_q(FINAL), gaps="", invs="OracleSane Export"), None, None))
+        runs.append(("skel", dict(maxlen=0, bommax=0, emin=0, shape="skel", free="", final="", gaps=_q(THOROUGH_GAPS), invs="Export"), None, None))
+        runs.append(("sim", dict(maxlen=12, bommax=12, emin=12, shape="free", free=_q(ALL_FREE), final=_q(FINAL), gaps="", invs="Export"), 1500, 13))
     else:
-        runs.append(("free", dict(maxlen=3, emin=0, shape="free", free=_q(QUICK_FREE), final=_q(FINAL), gaps="", invs="OracleSane Export"), None, None))
-        runs.append(("skel", dict(maxlen=0, emin=0, shape="skel", free="", final="", gaps=_q(QUICK_GAPS), invs="Export"), None, None))
-        runs.append(("sim", dict(maxlen=9, emin=9, shape="free", free=_q(ALL_FREE), final=_q(FINAL), gaps="", invs="Export"), 100, 10))
+        runs.append(("free", dict(maxlen=3, bommax=2, emin=0, shape="free", free=_q(QUICK_FREE), final=_q(FINAL), gaps="", invs="OracleSane Export"), None, None))
+        runs.append(("skel", dict(maxlen=0, bommax=0, emin=0, shape="skel", free="", final="", gaps=_q(QUICK_GAPS), invs="Export"), None, None))
+        runs.append(("sim", dict(maxlen=9, bommax=9, emin=9, shape="free", free=_q(ALL_FREE), final=_q(FINAL), gaps="", invs="Export"), 100, 10))
     files = _base_measures(binary, wd)
     stride = 3 if thorough else 61
 
     def tlc_run(name, cfg, sim, depth):
         return lambda: _tlc_cases("MCSrcPos", SRCPOS_CFG % cfg, wd, name, "%s/cases_%s.jsonl" % (wd, name),
                                   workers=8 if thorough and name == "free" else 4, simulate=sim, depth=depth,
-                                  timeout=2400, dedupe_key=(lambda o: "".join(o["text"])) if sim else None)
+                                  timeout=2400, dedupe_key=(lambda o: str(o["bom"]) + "".join(o["text"])) if sim else None)
     thunks = [tlc_run(*r) for r in runs]
     thunks.append(lambda: _mutants(files, wd, "mut", wd + "/cases_mut.jsonl", stride))
     results = _par(thunks)
@@ -270,6 +272,8 @@ def run_c13(pid, tier, replay):
     if ust["Cases"] != ncases or ust["Checks"] == 0 or ust["ItemsMatched"] == 0 or ust["CasesWithLexError"] == 0 \
             or ust["CasesWithNodes"] == 0 or ust["ErrorsChecked"] == 0:
         raise vf.MachineryError("C13 replay vacuous: %s" % dict(ust))
+    if ust["CasesWithBOM"] == 0 or sst["BOMCases"] == 0:
+        raise vf.MachineryError("C13: no case with a byte order mark was replayed: %s %s" % (dict(ust), dict(sst)))
     if ust["ItemsMatched"] * 2 < ust["ExpectedStarts"]:
         raise vf.MachineryError("C13: fewer than half of the expected token starts were found: %s" % dict(ust))
     if sst["Cases"] != nmut or sst["MultiLineNodes"] == 0:
@@ -322,7 +326,8 @@ def run_c13(pid, tier, replay):
         "columns after an invalid UTF-8 byte on the same line are not defined by the statement and not compared; "
         "positions whose reported Offset is inside a multi-byte character (Comment.End of a comment ending in one) are not compared",
         "NodeInfo.End() is compared as the exclusive end (documented), Comment.End() as the position of its last byte (by its Offset)",
-        "a byte order mark is out of scope (the lexer drops it before counting offsets)",
+        "a leading byte order mark is not part of the text: lines/columns are SrcText's for the text without it and offsets are "
+        "compared relative to the first byte after it (the unchanged code's convention; the statement leaves the origin of offsets open)",
         "concretisation a->'a', 2->U+00E9, 3->U+20AC, 4->U+1F600, X->0x80 is representative of its class",
         "mutant replay compares with the driver's reference position function, which is checked against SrcText on every "
         "exported boundary of every unit case in the same run"],
@@ -340,6 +345,8 @@ CONSTANTS
   MaxLen = %(maxlen)d
   ExportMin = %(emin)d
   Alphabet = {%(alpha)s}
+  Boms = {FALSE, TRUE}
+  BomMaxLen = %(bommax)d
 INVARIANTS TableSane Export
 CHECK_DEADLOCK FALSE
 """
@@ -548,10 +555,11 @@ def run_c12(pid, tier, replay):
     alpha = _q(ALPHABET)
     names = ["exh", "sim", "mut"] + (["chain"] if thorough else [])
     thunks = [
-        lambda: _tlc_cases("MCParseInputs", INPUTS_CFG % dict(maxlen=maxlen, emin=0, alpha=alpha), wd, "exh",
+        lambda: _tlc_cases("MCParseInputs", INPUTS_CFG % dict(maxlen=maxlen, bommax=maxlen - 1, emin=0, alpha=alpha), wd, "exh",
                            wd + "/cases_exh.jsonl", workers=8 if thorough else 6, timeout=2400),
-        lambda: _tlc_cases("MCParseInputs", INPUTS_CFG % dict(maxlen=simd, emin=simd, alpha=alpha), wd, "sim",
-                           wd + "/cases_sim.jsonl", simulate=simn, depth=simd + 1, dedupe_key=lambda o: "".join(o["text"])),
+        lambda: _tlc_cases("MCParseInputs", INPUTS_CFG % dict(maxlen=simd, bommax=simd, emin=simd, alpha=alpha), wd, "sim",
+                           wd + "/cases_sim.jsonl", simulate=simn, depth=simd + 1,
+                           dedupe_key=lambda o: str(o["bom"]) + "".join(o["text"])),
         lambda: _mutants(files, wd, "mut", wd + "/cases_mut.jsonl", stride),
     ]
     if thorough:   # the quick tier keeps the number of JVM starts down
@@ -564,7 +572,7 @@ def run_c12(pid, tier, replay):
     fam = collections.OrderedDict()
     for name, (r, n) in zip(names, gen):
         fam[name] = {"tlc_states": r.distinct, "tlc_transitions": r.generated, "inputs": n}
-    if fam["exh"]["inputs"] != sum(len(ALPHABET) ** k for k in range(maxlen + 1)):
+    if fam["exh"]["inputs"] != sum(len(ALPHABET) ** k for k in range(maxlen + 1)) + sum(len(ALPHABET) ** k for k in range(maxlen)):
         raise vf.MachineryError("exhaustive enumeration incomplete: %d" % fam["exh"]["inputs"])
 
     # record: text families together, mutant families together
@@ -625,7 +633,7 @@ def run_c12(pid, tier, replay):
         "samples": samples,
         "exhaustive": True,
         "families": fam,
-        "bounds": {"exhaustive_maxlen": maxlen, "alphabet": ALPHABET, "simulate": [simn, simd],
+        "bounds": {"exhaustive_maxlen": maxlen, "exhaustive_maxlen_after_bom": maxlen - 1, "alphabet": ALPHABET, "simulate": [simn, simd],
                    "mutation_stride": stride, "mutation_chain2_stride": chain_stride if thorough else None, "base_files": [f["name"] for f in files]},
         "trace_validation": {"events": events, "tlc_states": vstates, "chunks": nchunks,
                              "contract_model_states": contract.distinct if contract else "thorough tier only"},
@@ -637,6 +645,7 @@ def run_c12(pid, tier, replay):
         "for TLC-enumerated strings the line table is computed by TLC and the driver's own table must equal it on every input; "
         "for mutants of real files the table is the driver's",
         "an invalid UTF-8 byte counts as one column when deciding whether a column exists (permissive)",
+        "a leading byte order mark is not part of the text: the line table is that of the input without it",
         "inputs are read from an in-memory reader (no I/O errors); file name fixed",
         "both reporter modes are recorded for the enumerated strings (and for mutants in the quick tier); thorough records mutants with the tolerant reporter only",
         "ToDescriptor = parser.ResultFromAST(ast, validate=true) with an error tolerant reporter; its reported positions must also exist in the input"],
